@@ -34,6 +34,7 @@ func newInstance(ctx context.Context, log *zap.Logger, poolID string, id int, de
 
 	err = gun.Bind(deps.aggregator, gunDeps)
 	if err != nil {
+		_ = closeGun(gun, log)
 		return nil, err
 	}
 	inst := &instance{log: log, id: id, gun: gun, schedule: sched, instanceSharedDeps: deps.instanceSharedDeps}
@@ -106,15 +107,20 @@ func (i *instance) Run(ctx context.Context) (recoverErr error) {
 }
 
 func (i *instance) Close() error {
-	gunCloser, ok := i.gun.(io.Closer)
+	return closeGun(i.gun, i.log)
+}
+
+// closeGun closes the gun, if it is io.Closer.
+func closeGun(gun core.Gun, log *zap.Logger) error {
+	gunCloser, ok := gun.(io.Closer)
 	if !ok {
 		return nil
 	}
 	err := gunCloser.Close()
 	if err != nil {
-		i.log.Warn("Gun close fail", zap.Error(err))
+		log.Warn("Gun close fail", zap.Error(err))
 	}
-	i.log.Debug("Gun closed")
+	log.Debug("Gun closed")
 	return err
 }
 
